@@ -562,10 +562,11 @@ type Universe struct {
 	funcs     map[string]*FuncDecl // uninterpreted functions and constants
 	axioms    map[string][]*Term   // axioms attached to a symbol name: emitted when the symbol is used
 	usorts    map[Sort]bool
+	strLits   map[string]string // string literal constant -> its text (literals are pairwise distinct and have a known length)
 }
 
 func NewUniverse() *Universe {
-	u := &Universe{datatypes: map[Sort]*Datatype{}, funcs: map[string]*FuncDecl{}, axioms: map[string][]*Term{}, usorts: map[Sort]bool{}}
+	u := &Universe{datatypes: map[Sort]*Datatype{}, funcs: map[string]*FuncDecl{}, axioms: map[string][]*Term{}, usorts: map[Sort]bool{}, strLits: map[string]string{}}
 	u.usorts[SStr] = true
 	u.usorts[SIface] = true
 	u.Declare("u_mul_Real", SReal, SReal, SReal)
@@ -941,6 +942,24 @@ func (u *Universe) script(assumptions []*Term, goal *Term, wantModel bool, abstr
 	}
 	for _, ax := range axioms {
 		b.WriteString("(assert " + ax.String() + ")\n")
+	}
+	// string literals: pairwise different, and of their length
+	{
+		var lits []string
+		for s := range usedSyms {
+			if _, ok := u.strLits[s]; ok {
+				lits = append(lits, s)
+			}
+		}
+		sort.Strings(lits)
+		if len(lits) >= 2 {
+			b.WriteString("(assert (distinct " + strings.Join(lits, " ") + "))\n")
+		}
+		if usedSyms["str_len"] {
+			for _, l := range lits {
+				b.WriteString(fmt.Sprintf("(assert (= (str_len %s) %d))\n", l, len(u.strLits[l])))
+			}
+		}
 	}
 	for _, a := range assumptions {
 		if a.IsTrue() {
